@@ -27,7 +27,9 @@ import (
 	"github.com/Tnze/go-mc/data/packetid"
 	mcnet "github.com/Tnze/go-mc/net"
 	pk "github.com/Tnze/go-mc/net/packet"
+	"github.com/Tnze/go-mc/nbt"
 	"github.com/Tnze/go-mc/net/queue"
+	"github.com/Tnze/go-mc/registry"
 	"github.com/Tnze/go-mc/offline"
 	"github.com/Tnze/go-mc/server"
 	"github.com/Tnze/go-mc/yggdrasil/user"
@@ -280,6 +282,23 @@ func session(c *vm.Ctx, r *vm.Rand, si int, sess *sessionServer) {
 	online := r.Intn(4) == 0
 	transport := []string{"tcp", "pipe"}[r.Intn(2)]
 	qkind := []string{"linked", "channel"}[r.Intn(2)]
+	// the configuration step: the minimal one (finish + acknowledgement), or the handler the library itself ships
+	var cfgH server.ConfigHandler = cfgHandler{}
+	cfgKind := "finish-only"
+	regs := registry.NewNetworkCodec()
+	if r.Intn(4) == 0 {
+		for k := r.Intn(3); k > 0; k-- {
+			regs.DimensionType.Put(fmt.Sprintf("verif:dim%d", k), registry.Dimension{Height: int32(16 * r.Range(1, 24)), MinY: -64, Effects: "minecraft:overworld", CoordinateScale: 1,
+				MonsterSpawnLightLevel: nbt.RawMessage{Type: nbt.TagInt, Data: []byte{0, 0, 0, 7}}})
+		}
+		if r.Bool() {
+			var ct registry.ChatType
+			ct.Chat.TranslationKey, ct.Chat.Parameters = "chat.type.text", []string{"sender", "content"}
+			ct.Narration.TranslationKey, ct.Narration.Parameters = "chat.type.text.narrate", []string{"sender", "content"}
+			regs.ChatType.Put("minecraft:chat", ct)
+		}
+		cfgH, cfgKind = &server.Configurations{Registries: regs}, "server.Configurations"
+	}
 	nS2C, nC2S := r.Range(0, 60), r.Range(0, 60)
 	if r.Intn(8) == 0 {
 		nS2C, nC2S = r.Range(100, 200), r.Range(100, 200)
@@ -354,7 +373,7 @@ func session(c *vm.Ctx, r *vm.Rand, si int, sess *sessionServer) {
 		failLabel = r.Intn(len(specs))
 	}
 	wit := func() any {
-		return map[string]any{"threshold": threshold, "name": name, "checker_accepts": accept, "online_mode": online, "transport": transport, "bot_queue": qkind,
+		return map[string]any{"threshold": threshold, "name": name, "checker_accepts": accept, "online_mode": online, "transport": transport, "bot_queue": qkind, "config_handler": cfgKind,
 			"packets_server_to_client": seq, "packets_client_to_server": nC2S, "bundles": group, "handlers": fmt.Sprintf("%+v", specs), "watched_id": watched, "fail_at_seq": failAt, "fail_handler": failLabel}
 	}
 	c.Inflight(fmt.Sprintf("session %d %v", si, wit()))
@@ -374,7 +393,7 @@ func session(c *vm.Ctx, r *vm.Rand, si int, sess *sessionServer) {
 	srv := &server.Server{
 		ListPingHandler: listPing{server.NewPlayerList(20), server.NewPingInfo("verif", 767, chat.Text("motd §a"+name), nil)},
 		LoginHandler:    &server.MojangLoginHandler{OnlineMode: online, Threshold: threshold, LoginChecker: chk},
-		ConfigHandler:   cfgHandler{},
+		ConfigHandler:   cfgH,
 		GamePlay:        gp,
 	}
 	sess.mu.Lock()
@@ -655,6 +674,33 @@ func session(c *vm.Ctx, r *vm.Rand, si int, sess *sessionServer) {
 		c.Cover("bundle.present")
 	}
 	c.Cover("join.ok." + transport)
+	c.Cover("join.config." + cfgKind)
+	if cfgKind == "server.Configurations" {
+		// the registries the server was configured with have arrived in the bot, entry by entry
+		for id := int32(0); ; id++ {
+			want := regs.DimensionType.GetByID(id)
+			got := cl.Registries.DimensionType.GetByID(id)
+			if want == nil {
+				if got != nil {
+					c.Violation("join/registries/extra-entry", fmt.Sprintf("the bot holds a dimension type with id %d the server never sent", id), wit())
+				}
+				break
+			}
+			if got == nil || got.Height != want.Height || got.MinY != want.MinY || got.Effects != want.Effects {
+				c.Violation("join/registries/dimension-type", fmt.Sprintf("dimension type %d: the bot holds %+v, the server sent %+v", id, got, want), wit())
+				break
+			}
+			c.Cover("join.registries.dimension-type-arrived")
+		}
+		if want := regs.ChatType.GetByID(0); want != nil {
+			got := cl.Registries.ChatType.GetByID(0)
+			if got == nil || got.Chat.TranslationKey != want.Chat.TranslationKey || fmt.Sprint(got.Chat.Parameters) != fmt.Sprint(want.Chat.Parameters) {
+				c.Violation("join/registries/chat-type", fmt.Sprintf("chat type 0: the bot holds %+v, the server sent %+v", got, want), wit())
+			} else {
+				c.Cover("join.registries.chat-type-arrived")
+			}
+		}
+	}
 	c.Cover("join.queue." + qkind)
 	c.Cover(fmt.Sprintf("join.threshold=%d", threshold))
 	if online {
